@@ -135,7 +135,7 @@ def main():
     obs = []
     if tier == "quick":
         lin_shapes = [(w, d) for w in (1, 2, 3) for d in (1, 2, 3)]
-        tmo = 120000
+        tmo = 600000
     else:
         lin_shapes = [(w, d) for w in (1, 2, 3, 4) for d in (1, 2, 3, 4)] + [(2, 6), (5, 2), (8, 2), (2, 8)]
         tmo = 600000
